@@ -50,6 +50,8 @@ def sh(cmd, **kw):
 def main():
     sel = sys.argv[1:]
     results = []
+    # the evidence files of the unchanged tree must survive the mutant runs
+    sh("rm -rf /var/tmp/evidence.mut.bak && cp -a /verif/evidence /var/tmp/evidence.mut.bak")
     for m in M:
         if sel and not any(s in m['name'] for s in sel):
             continue
@@ -75,6 +77,7 @@ def main():
             print(m['name'], res, flush=True)
         finally:
             sh("git -C /repo checkout -- .")
+    sh("cp -a /var/tmp/evidence.mut.bak/. /verif/evidence/ && rm -rf /var/tmp/evidence.mut.bak")
     caught = sum(1 for n, s, r in results if s == 'ran' and any(v[0] == 1 for v in r.values()))
     print(f"\n{caught}/{len(results)} mutants caught by at least one listed check")
     json.dump(results, open('/verif/tools/mutants_last.json', 'w'), indent=1)
